@@ -301,6 +301,9 @@ def native_test_cmd(release, test_name, extra_cfg=("verif_native", "verif_playba
     return cmd, env
 
 
+KNOWN_REPORTED = []
+
+
 def native_finding(spec):
     """A listed finding that has no solver-side detector (code CBMC cannot execute) carries `native_test=<crate>:<test>`:
     an integration test of the harness crate, built with the ordinary toolchain against /repo's working tree, that
@@ -507,11 +510,13 @@ def main(argv):
             continue
         printed.add(key)
         log(f"KNOWN-FINDING: property={prop} {k['what']}")
+        KNOWN_REPORTED.append({"what": k["what"], "how": "solver: listed assertion failed in " + r["harness"]})
     for k in known:
         if k.get("property") == prop and k.get("native_test") and not a.only:
             st, detail = native_finding(k["native_test"])
             if st == "REPRODUCED":
                 log(f"KNOWN-FINDING: property={prop} {k['what']}")
+                KNOWN_REPORTED.append({"what": k["what"], "how": "native test " + k["native_test"] + " (no solver-side detector): " + detail})
             else:
                 log(f"  note: listed finding not reproduced natively ({st}): {k['what']} {detail}")
     for r, rp in violations:
@@ -575,6 +580,7 @@ def write_evidence(prop, tier, seed, results, runs, wall, nviol, inconclusive):
             "outside_claim": outside,
             "engine": "kani 0.68.0 / CBMC 6.11.0 / cadical; goto programs regenerated from /repo working tree on this run",
             "commands": [" ".join(r["cmd"]) for r in runs],
+            "known_findings_reported": list(KNOWN_REPORTED),
             "exhaustive": False,
         },
         "assumptions": [
